@@ -146,16 +146,18 @@ extern int mpt_notify_clear(MPT_STRUCT(notify) *no, int file)
 			errno = EBADF;
 			return -2;
 		}
-		curr->_vptr->meta.unref((void *) curr);
 		*base = 0;
+		/* input must not stay on pending list */
 		if ((buf = no->_wait._buf)) {
-			size_t i, len = buf->_used / sizeof(*base);
+			MPT_INTERFACE(input) **wait = (void *) (buf + 1);
+			size_t i, len = buf->_used / sizeof(*wait);
 			for (i = 0; i < len; ++i) {
-				if (base[i] == curr) {
-					base[i] = 0;
+				if (wait[i] == curr) {
+					wait[i] = 0;
 				}
 			}
 		}
+		curr->_vptr->meta.unref((void *) curr);
 		--no->_fdused;
 	}
 #if defined(__linux)
